@@ -37,8 +37,8 @@ CACHE = os.path.join(VERIF, ".cache")
 MY_MODULES = ("OrdererRef.tla", "Orderer.tla", "MC_Orderer.tla", "Trace_Orderer.tla")
 MAX_EVENTS = 3000          # drifted observations adjudicated per run (the rest is counted)
 CALL_TIMEOUT = 10.0        # seconds of wall clock allowed to ONE orderer call (normal: ~2 ms)
-RETRY_TIMEOUT = 30.0       # a timed-out call is retried once with this allowance
-MAX_TIMEOUTS_PER_WORKER = 2
+RETRY_TIMEOUT = 20.0       # a timed-out call is retried once with this allowance
+MAX_TIMEOUTS_PER_WORKER = 1
 
 MODES = ("src", "mix", "deep", "uni")
 KEYWORD_POSITIONS = ("items", "itemsT", "additionalItems", "contains", "properties",
